@@ -3,7 +3,7 @@
 From Coq Require Import List NArith ZArith Arith Bool Lia.
 From RecordUpdate Require Import RecordUpdate.
 From Iodine Require Import Generated.SrcConsts Base Codec CodecProofs Hostname DnsName DnsMsg Domain Server
-  ServerFrame ServerRefine ServerFragProofs ServerDedupProofs.
+  ServerRings ServerRefine ServerFragProofs ServerDedupProofs.
 Import ListNotations.
 Local Open Scope N_scope.
 
